@@ -471,6 +471,9 @@ def dispatch_chain(body: Sequence[ast.stmt]):
         i += 1  # statements before the dispatch (bindings, logging) are not part of it
     while i < len(stmts):
         s = stmts[i]
+        if isinstance(s, ast.Assign) and any(isinstance(x, ast.If) for x in stmts[i + 1 :]):
+            i += 1  # a binding between two tests (`name = to_name(ann)`) belongs to the tests that follow it
+            continue
         if not isinstance(s, ast.If):
             break
         ch, els = if_chain(s)
@@ -547,3 +550,19 @@ def seq_source(e, binds=None, depth=0):
             continue
         return core, par, filters
     return e, par, filters
+
+
+def fold_tuple_index(e):
+    """`(a, b, c)[1]` -> `b` (what a straight-line substitution of a re-packed tuple leaves behind)"""
+    import copy as _copy
+
+    class F(ast.NodeTransformer):
+        def visit_Subscript(self, n):
+            self.generic_visit(n)
+            if isinstance(n.value, (ast.Tuple, ast.List)) and isinstance(n.slice, ast.Constant) and isinstance(n.slice.value, int) and not any(isinstance(x, ast.Starred) for x in n.value.elts):
+                k = n.slice.value
+                if -len(n.value.elts) <= k < len(n.value.elts):
+                    return n.value.elts[k]
+            return n
+
+    return F().visit(_copy.deepcopy(e))
